@@ -194,6 +194,18 @@ def make_shim(real_create):
         import numpy as np
 
         sel_t = selection if isinstance(selection, tuple) else (selection,)
+        if any(isinstance(s, np.ndarray) for s in sel_t) and not _all_concrete(selection, shape, chunks):
+            # integer-array selections are not modelled: fork shape / chunk sizes / slice bounds by value and use the real indexer
+            from engine import sx
+
+            def cc(v):
+                if isinstance(v, slice):
+                    return slice(cc(v.start), cc(v.stop), cc(v.step))
+                if isinstance(v, (tuple, list)):
+                    return type(v)(cc(i) for i in v)
+                return sx.conc(v) if _sym(v) else v
+
+            selection, shape, chunks = cc(selection), cc(shape), cc(chunks)
         if any(isinstance(s, np.ndarray) for s in sel_t) or _all_concrete(selection, shape, chunks):
             STATS["zarr"] += 1
             return real_create(selection, shape, chunks)
